@@ -10,6 +10,7 @@ CONSTANTS
   MaxReqs = 0
   Variant = "share"
   Emit = FALSE
+  EmitFrom = 1
 INVARIANTS Refines WalkOK WalksOwnHandler
 PROPERTIES ImmutableP
 VIEW View
